@@ -260,6 +260,33 @@ pub fn notify_then_park(p: &Program) -> bool {
     })
 }
 
+/// F13 (through the spurious return of `Notify::wait`, which yields): a thread waits on a `Notify`
+/// and later performs an operation on an object that is shared with other threads.
+pub fn op_after_spurious_wait(p: &Program) -> bool {
+    p.threads.iter().any(|ops| match ops.iter().position(|o| matches!(o, Op::NfWait { .. })) {
+        Some(i) => ops[i + 1..].iter().any(|o| {
+            !matches!(
+                o,
+                Op::Join { .. }
+                    | Op::Spawn { .. }
+                    | Op::CellRead { .. }
+                    | Op::CellWrite { .. }
+                    | Op::TlsWith { .. }
+                    | Op::TlsBump { .. }
+                    | Op::TlsNested { .. }
+                    | Op::Incr { .. }
+                    | Op::Get { .. }
+                    | Op::RwGet { .. }
+                    | Op::Unlock { .. }
+                    | Op::UnlockR { .. }
+                    | Op::UnlockW { .. }
+                    | Op::NfWait { .. }
+            )
+        }),
+        None => false,
+    })
+}
+
 /// F11: a non-atomic write performed while holding only a read guard of an RwLock.
 pub fn write_under_read_lock(p: &Program) -> bool {
     p.threads.iter().any(|ops| {
@@ -296,6 +323,7 @@ pub fn in_class(class: &str, case: &Case, labels: &[String]) -> bool {
         "park_unpark_twice" => park_unpark_twice(p),
         "notify_then_park" => notify_then_park(p),
         "has_yield" => p.has(|o| matches!(o, Op::Yield)),
+        "op_after_spurious_wait" => op_after_spurious_wait(p),
         "write_under_read_lock" => write_under_read_lock(p),
         "sc_fence_pair" => sc_fence_pair(p),
         "arc_inspect_race" => arc_inspect_race(p),
